@@ -21,6 +21,7 @@ pass write_response (the handler future, a coroutine local, is dropped there); a
 handler finishes the stream and awaits `stopped`; request tasks live in a JoinSet local to the
 connection handler, which is shut down on every path from loop exit to return.
 Nothing on the request path, including the typed-RPC layer, spawns (closed world of task creation, C08.7 re-evaluated).
+What an abandoning caller makes fail on the serving side is returned as an error, never a panic (C06.1a/C06.2 re-evaluated for the request path).
 """
 TRUSTED = ["quinn: reset()/stop propagate to the peer's stopped()/read", "tokio JoinSet aborts its tasks when dropped or shut down"]
 NOT_DECIDED = ["promptness of remote cancellation", "QUIC stream-credit accounting over long histories", "abandonment at every instant (schedule quantifier)"]
@@ -241,3 +242,14 @@ def run(cx):
 
     with cx.ob("C12.8", "R-SHAPE", "one layer out: closed world of destructors (the only per-request destructor is the stream wrapper's reset)") as ob:
         check_drop_impls_closed(ob, prog, ["anemo::connection::SendStream", "anemo::network::connection_manager::ConnectionManager"])
+
+    with cx.ob("C12.9", "R-PANIC", "an abandoned RPC ends only its own request task: whatever the abandoning caller makes fail on the serving side (a write after STOP_SENDING, a read after RESET) is an error the task returns, not a panic - a panic is re-raised by the connection handler and the manager and takes every other RPC down (C06.1a, C06.2 re-evaluated)") as ob:
+        from . import c06
+        sub = cx.__class__("C12", prog, cx.tier, cx.config, cx.tree, repo=cx.repo)
+        c06.run(sub)
+        w = [x for x in sub.obs if x.oid in ("C06.1a", "C06.2")]
+        ob.count(sum(x.evals for x in w))
+        bad = [v for x in w for v in x.violations if x.oid == "C06.2" or "request_handler" in v.key or "network::wire" in v.key]
+        ob.require(len(w) == 2 and not bad, "abandoned-rpc/ends-only-its-task", "a failure caused by an abandoned RPC can panic on the serving side: " + "; ".join(str(v.msg) for v in bad)[:300],
+                   "anemo::network::request_handler::BiStreamRequestHandler::do_handle")
+
